@@ -1,6 +1,7 @@
 package props
 
 import (
+	"bytes"
 	"errors"
 	"fmt"
 	"os"
@@ -55,7 +56,7 @@ func TestC12Shutdown(t *testing.T) {
 		cfg := baseConfig()
 		h := newH(rt, "C12", asVolatileSession(rt, sim.Options{Config: cfg}))
 		state := rapid.SampledFrom([]string{"never-connected", "dialing", "awaiting-connack", "resending", "online-idle", "online-holding",
-			"writers-parked", "offline-after-failed-connect", "reconnect-pending", "already-closed", "remote-closed-unnoticed", "next-write-fails", "connecting-behind-a-slow-save"}).Draw(rt, "state")
+			"writers-parked", "offline-after-failed-connect", "reconnect-pending", "already-closed", "remote-closed-unnoticed", "next-write-fails", "connecting-behind-a-slow-save", "connect-write-parked"}).Draw(rt, "state")
 		h.Act("state %s", state)
 		h.label("state:" + state)
 		nontrivial := state != "online-idle" && state != "never-connected"
@@ -93,6 +94,18 @@ func TestC12Shutdown(t *testing.T) {
 			}
 			h.App.Step()
 			h.MustPoll("dial parked", func() bool { return h.DialParked() > 0 })
+		case "connect-write-parked":
+			// the peer stopped taking bytes inside the CONNECT packet: the
+			// read routine sits in that Write when the shutdown arrives
+			d := rapid.IntRange(0, connectLen-1).Draw(rt, "connectCut")
+			h.WithLock(func() {
+				h.NextConnOpts = func(c *sim.Conn) {
+					c.ArmWriteLocked(sim.WFault{Off: d, Kind: sim.WPark})
+					h.NextConnOpts = nil
+				}
+			})
+			h.App.Step()
+			h.SettleReader("CONNECT write parked")
 		case "awaiting-connack":
 			h.ScriptDial(sim.DialOutcome{Connack: &sim.ConnackPolicy{Kind: sim.ConnackHold}})
 			h.App.Step()
@@ -280,6 +293,17 @@ func TestC12Shutdown(t *testing.T) {
 		}
 		noPanics(h)
 		h.checkSignals("after Close/Disconnect returned", true)
+		// every connection starts with (a prefix of) the CONNECT of this Config
+		// and carries whole packets only, whatever the shutdown interrupted
+		wantConnect := refmqtt.Encode(&refmqtt.Packet{Type: refmqtt.CONNECT, Connect: &refmqtt.Connect{ClientID: clientID, KeepAlive: cfg.KeepAlive, CleanSession: cfg.CleanSession}})
+		for _, c := range h.AllConns() {
+			out := c.OutCopy()
+			n := min(len(out), len(wantConnect))
+			if !bytes.Equal(out[:n], wantConnect[:n]) {
+				h.Failf("conn %d: the first %d bytes written are no prefix of the CONNECT packet: % x, want % x", c.N, n, out[:n], wantConnect[:n])
+			}
+		}
+		h.checkWire()
 
 		// a successful Disconnect: DISCONNECT is the last packet of its connection
 		for _, cl := range closers {
